@@ -46,6 +46,7 @@ def run(ctx):
     r93(ctx)
     r94(ctx)
     r95(ctx)
+    r97(ctx)
     r_filter(ctx)
 
 
@@ -396,3 +397,26 @@ def r_filter(ctx):
     Err unless Warn), evaluated here because an operator's `error` pin on this property's tags depends on them."""
     from rules import C05 as _c05
     _c05.r54(ctx, rid="R9.6")
+
+
+def r97(ctx):
+    ctx.rule("R9.7", "sweep signatures are SIGHASH_ALL: in sign_delayed_sweep / sign_counterparty_htlc_sweep / sign_justice_sweep "
+                     "the digest handed to sign_ecdsa is computed with EcdsaSighashType::All on every path (the validated "
+                     "destinations are only binding if the signature covers all outputs)")
+    p = ctx.prog
+    for fn in ("sign_delayed_sweep", "sign_counterparty_htlc_sweep", "sign_justice_sweep"):
+        b = p.fn(f"{CH}::{fn}")
+        n = 0
+        for bb in [b] + list(p.closures_of(b)):
+            v = fnview(ctx, bb)
+            for bi, ln, c in R.call_blocks(v, lambda nm: nm.endswith("_signature_hash")):
+                n += 1
+                root, defs, sw = R.conditional_defs(v, c.args[-1])
+                vals = sorted({render(e).rsplit("::", 1)[-1] for _, ops in defs for e in ops})
+                ctx.ob("R9.7", vals == ["All"], f"{b.name}/sighash-all",
+                       f"`{fn}` computes the signed digest with sighash type {vals}"
+                       + (f" chosen by {[render(e)[:60] for _, e in sw]}" if sw else "")
+                       + " (expected SIGHASH_ALL always): the signature does not commit to every output of the sweep that "
+                       "validate_sweep checked, so it also authorises a transaction paying the other outputs elsewhere",
+                       where=f"{bb.file}:{ln}", sample="EcdsaSighashType::All")
+        ctx.floor("R9.7", f"sighash computations in {fn}", n, 1)
